@@ -241,7 +241,129 @@ def run_c17(ctx):
     ctx.pmap(drivers.drv_b64, _stamp(cases, "drv_b64"))
     ctx.validate()
 
+# ------------------------------------------------------------------------------------------- polyhedra: C11, C12, C19, C20
+def S(x): return {"$set": [list(i) if isinstance(i, tuple) else i for i in x]}
+
+def poly_universe(ctx, invariants, name, nr=2, nc=2, coefs=range(-2, 3), bs=range(-1, 3), bounds=((0, 1), (-1, 2)), properties=()):
+    u = {"NR": nr, "NC": nc, "Coefs": S(coefs), "Bs": S(bs), "BoundOpts": S(bounds)}
+    r = ctx.model_check("PuanPoly", u, invariants=invariants, properties=properties, dump=True, name=name,
+                        spec="FairSpec" if properties else "Spec")
+    cases, seen = [], set()
+    for st in tlc.dump_states(r["dump_path"], only={"rows0", "cols0", "pc"}):
+        if st["pc"] != "test": continue
+        key = json.dumps([st["rows0"], st["cols0"]])
+        if key in seen: continue
+        seen.add(key)
+        cases.append({"rows": [[x["b"]] + list(x["a"]) for x in st["rows0"]], "bounds": [[c["lo"], c["hi"]] for c in st["cols0"]],
+                      "src": "spec", "k": len(cases)})
+    os.remove(r["dump_path"])
+    return cases
+
+def random_polys(ctx, n, required=("rows>=3", "cols>=3", "nonunit_coef", "zero_coef", "neg_lower", "degenerate_bound", "infeasible_hint")):
+    rng = ctx.rng
+    out = []
+    for k in range(n):
+        nr, nc = rng.randint(1, 4), rng.randint(1, 4)
+        bopts = [(0, 1), (0, 1), (-1, 2), (-3, 0), (2, 5), (1, 1), (0, 3), (-2, -1)]
+        while True:
+            bounds = [rng.choice(bopts) for _ in range(nc)]
+            size = 1
+            for lo, hi in bounds: size *= hi - lo + 1
+            if size <= 600: break
+        rows = [[rng.randint(-4, 4)] + [rng.choice([-3, -2, -1, -1, 0, 0, 1, 1, 2, 3]) for _ in range(nc)] for _ in range(nr)]
+        if nr >= 3: ctx.region("rows>=3")
+        if nc >= 3: ctx.region("cols>=3")
+        if any(abs(x) > 1 for r in rows for x in r[1:]): ctx.region("nonunit_coef")
+        if any(x == 0 for r in rows for x in r[1:]): ctx.region("zero_coef")
+        if any(lo < 0 for lo, hi in bounds): ctx.region("neg_lower")
+        if any(lo == hi for lo, hi in bounds): ctx.region("degenerate_bound")
+        if any(r[0] > sum(max(a * lo, a * hi) for a, (lo, hi) in zip(r[1:], bounds)) for r in rows): ctx.region("infeasible_hint")
+        out.append({"rows": rows, "bounds": [list(b) for b in bounds], "src": "random", "k": k,
+                    "ids": ["c%d" % j for j in range(nc)], "index": ["r%d" % i for i in range(nr)]})
+    missing = [f for f in required if not ctx.regions.get(f)]
+    if missing: raise Machinery("random polyhedra did not reach regions %s" % missing)
+    return out
+
+def run_c11(ctx):
+    q = ctx.tier == "quick"
+    cases = poly_universe(ctx, ["ProjInv", "RowsImplied", "ColsForced", "FinalReduce"], "Poly_C11",
+                          bs=range(-1, 2) if q else range(-2, 3), bounds=((0, 1), (-1, 2)) if q else ((0, 1), (-1, 2), (1, 1)))
+    if not q:
+        cases += poly_universe(ctx, ["ProjInv", "RowsImplied", "ColsForced", "FinalReduce"], "Poly_C11_3col", nr=1, nc=3, coefs=range(-2, 3), bs=range(-2, 3))
+    # liveness of the loop (no state constraint): a smaller universe, fairness on the loop actions
+    ctx.model_check("PuanPoly", {"NR": 2, "NC": 2, "Coefs": S(range(-1, 2) if q else range(-2, 3)), "Bs": S(range(-1, 2)), "BoundOpts": S([(0, 1), (-1, 1)])},
+                    properties=["Terminates"], spec="FairSpec", name="Poly_C11_live")
+    cases += random_polys(ctx, 1500 if q else 20000)
+    ctx.pmap(drivers.drv_poly_reduce, _stamp(cases, "drv_poly_reduce"))
+    ctx.validate()
+
+def run_c12(ctx):
+    q = ctx.tier == "quick"
+    cases = poly_universe(ctx, ["TightSound", "RowBoundsExact"], "Poly_C12",
+                          bs=range(-1, 2) if q else range(-2, 3), bounds=((0, 1), (-1, 2)) if q else ((0, 1), (-1, 2), (1, 1)))
+    if not q:
+        cases += poly_universe(ctx, ["TightSound", "RowBoundsExact"], "Poly_C12_3col", nr=1, nc=3, coefs=range(-3, 4), bs=range(-2, 3))
+    cases += random_polys(ctx, 1500 if q else 20000)
+    ctx.pmap(drivers.drv_tighten, _stamp(cases, "drv_tighten"))
+    ctx.validate()
+
+def run_c19(ctx):
+    q = ctx.tier == "quick"
+    import itertools
+    base = poly_universe(ctx, [], "Poly_C19", coefs=range(-2, 3), bs=range(-1, 2) if q else range(-2, 3), bounds=((0, 1),))
+    grid = [list(p) for p in itertools.product(range(-1, 3), repeat=2)]     # also points outside the declared bounds
+    cases = []
+    for k, c in enumerate(base):
+        rng = ctx.rng
+        pts = [rng.choice(grid)]                                            # a vector
+        pts.append([rng.choice(grid) for _ in range(rng.randint(1, 3))])    # a matrix of points
+        pts.append([[rng.choice(grid) for _ in range(rng.randint(1, 3))] for _ in range(rng.randint(1, 3))])
+        m = len(pts[-1][0])
+        pts[-1] = [g[:m] + [g[-1]] * (m - len(g)) for g in pts[-1]]          # rectangular stack
+        cases.append(dict(c, points=pts))
+    # every grid point as a vector / every pair as a matrix for a few matrices
+    for c in base[:: max(1, len(base) // 60)]:
+        cases.append(dict(c, points=[p for p in grid] + [[p1, p2] for p1 in grid[::3] for p2 in grid[::5]] + [[[p1, p2], [p2, p1], [p1, p1]] for p1 in grid[::4] for p2 in grid[1::6]]))
+    for c in random_polys(ctx, 300 if q else 4000, required=("rows>=3", "cols>=3")):
+        nc = len(c["bounds"]); rng = ctx.rng
+        pt = lambda: [rng.randint(-2, 3) for _ in range(nc)]
+        c["points"] = [pt(), [pt() for _ in range(rng.randint(1, 4))], [[pt() for _ in range(3)] for _ in range(rng.randint(1, 3))]]
+        ctx.region("points>=3"); ctx.region("3d")
+        cases.append(c)
+    ctx.pmap(drivers.drv_classify, _stamp(cases, "drv_classify"))
+    ctx.validate()
+
+def run_c20(ctx):
+    q = ctx.tier == "quick"
+    u = {"IdPool": {"a", "b", "n7", "uml"} if not q else {"a", "n7", "uml"}, "BoundOpts": S([(0, 1), (1, 1), (-3, 4)] if q else [(0, 1), (1, 1), (-3, 4), (2, 2)]),
+         "MaxVars": 2 if q else 3, "Vals": S([0, 5] if q else [0, 5, -2]), "Unknown": "zz"}
+    r = ctx.model_check("PuanBridge", u, invariants=["C20"], dump=True, name="Bridge_C20")
+    cases = []
+    for st in tlc.dump_states(r["dump_path"], only={"vars", "d", "lst", "phase"}):
+        if st["phase"] != "done": continue
+        cases.append({"vars": st["vars"], "dict": st["d"] if isinstance(st["d"], dict) else {}, "list": st["lst"], "src": "spec",
+                      "bits": [len(cases) % 2, 1, (len(cases) // 2) % 2]})
+    os.remove(r["dump_path"])
+    rng = ctx.rng
+    for k in range(300 if q else 3000):
+        ids = rng.sample(["a", "b", "c", "n7", "uml", "fz", "A", "zq"], rng.randint(1, 5))
+        vs = [{"id": i, "lo": b[0], "hi": b[1]} for i, b in ((i, rng.choice([(0, 1), (1, 1), (-3, 4), (2, 2), (0, 0), (-5, -2)])) for i in ids)]
+        keys = rng.sample(ids + ["zz"], rng.randint(0, len(ids)))
+        lst = [rng.choice(ids + ["zz"]) for _ in range(rng.randint(0, 4))]
+        if len(lst) != len(set(lst)): ctx.region("duplicate_in_list")
+        if any(v == 0 for v in [0]) : pass
+        d = {i: rng.choice([0, 0, 5, -2, 1]) for i in keys}
+        if any(v == 0 for v in d.values()): ctx.region("explicit_zero")
+        if len(ids) >= 4: ctx.region("vars>=4")
+        cases.append({"vars": vs, "dict": d, "list": lst, "bits": [rng.randint(0, 1) for _ in range(3)], "src": "random"})
+    ctx.pmap(drivers.drv_bridge, _stamp(cases, "drv_bridge"))
+    ctx.validate()
+
 PROPS = {
+    "C11": {"run": run_c11, "clauses": {"shape", "rows_implied", "cols_forced", "projection", "labels", "loop_inv", "reduce_cols_fn", "reduce_rows_fn", "no_exception"}},
+    "C12": {"run": run_c12, "clauses": {"shape", "contain", "no_widen", "contra_only_if_empty", "rowb_exact", "colb", "ncomb", "no_exception"}},
+    "C19": {"run": run_c19, "clauses": {"sat_value", "sep_value", "rowsep_value", "no_exception"}},
+    "C20": {"run": run_c20, "clauses": {"construct", "partition", "from_list_bool", "from_list_int", "from_list_nested", "to_list", "to_list_nested", "split_Ab", "no_exception"}},
     "C16": {"run": run_c16, "clauses": {"back_is_model", "leaves_same", "points_complete", "equiv", "equiv_struct", "ids_explicit",
                                         "ids_generated_absent", "defaults_same", "dp_same", "poly_same", "no_exception"}},
     "C17": {"run": run_c17, "clauses": {"struct_same", "text_same", "queries_same", "poly_struct_same", "poly_again_same", "select_same", "no_exception"}},
@@ -261,7 +383,7 @@ def finish(ctx):
     meta = PROPS[ctx.pid]
     mine, other = {}, {}
     for tid, cl in ctx.rejects.items():
-        a = [c for c in cl if c in meta["clauses"]]
+        a = [c for c in cl if c in meta["clauses"] or c == "spec_eval_error"]
         b = [c for c in cl if c not in meta["clauses"]]
         if a: mine[tid] = a
         if b: other[tid] = b
